@@ -76,6 +76,8 @@ pub fn run(ctx: &Ctx, rep: &mut Report) {
         let twin_idx = cands.len();
         cands.push(twin_of(&u.env, &cands[0]));
         let stranger = u.principal();
+        // entry points of the operators contract this workload does not know
+        let unknown_fns = unknown_entry_points("axelar-operators", &["__constructor", "add_operator", "execute", "is_operator", "remove_operator", "run_migration", "owner", "transfer_ownership", "upgrade", "migrate", "version"]);
         let mut members: BTreeSet<usize> = BTreeSet::new();
         let mut ever: BTreeSet<usize> = BTreeSet::new();
         let mut log_len: u32 = 0;
@@ -299,6 +301,31 @@ pub fn run(ctx: &Ctx, rep: &mut Report) {
                     let n_other: u32 = u.query(move |env| ProbeTargetClient::new(env, &ot).log().len());
                     if n_other != 0 {
                         rep.violation("call-reached-wrong-contract", "a contract that was never named received a call".into());
+                        break;
+                    }
+                }
+            }
+            // unknown entry points, tried by a stranger with what is at hand: an account, or a complete
+            // forwarding request in a member's name; membership and the target's log must not move
+            if !unknown_fns.is_empty() {
+                use soroban_sdk::IntoVal;
+                let env = u.env.clone();
+                let mut a1: SVec<Val> = SVec::new(&env);
+                a1.push_back(1u32.into_val(&env));
+                let tuples: Vec<SVec<Val>> = vec![
+                    (cand.clone(),).into_val(&env),
+                    (stranger.clone(),).into_val(&env),
+                    (cand.clone(), target.clone(), Symbol::new(&env, "f1"), a1.clone()).into_val(&env),
+                    (target.clone(), Symbol::new(&env, "f1"), a1).into_val(&env),
+                ];
+                let n = u.try_unknown(&ops_c, &unknown_fns, &tuples, &Auth::AllBy(stranger.clone()));
+                rep.count("unknown-entry-point-tried");
+                if n > 0 {
+                    rep.count("note:unknown-entry-point-accepted-a-call");
+                    let tg = target.clone();
+                    let len: u32 = u.query(move |env| ProbeTargetClient::new(env, &tg).log().len());
+                    if len != log_len {
+                        rep.violation("call-forwarded-through-an-unknown-entry-point", "the target received a call that no member authorised".into());
                         break;
                     }
                 }
